@@ -56,7 +56,7 @@ Definition oack_spec (lim : limits) (netascii : bool) (k : stream_kind) (opts : 
      s_timeout :=
        match requested opts (lit "timeout") with
        | Some s => match canonical_decimal s with
-                   | Some n => if (1 <=? n) && (n <=? max_tmo lim) then Some n else None
+                   | Some n => if (1 <=? n) && (n * TICKS_PER_SECOND <=? max_tmo lim) then Some n else None
                    | None => None
                    end
        | None => None
@@ -78,6 +78,6 @@ Definition opt_pair (name : string) (v : option N) : list (str * str) :=
 (* what the transfer has to use, and the OACK to send ([] = no OACK) *)
 Definition spec_negotiated (lim : limits) (o : oack) : negotiated :=
   {| n_bs := match s_blksize o with Some m => m | None => 512 end;
-     n_tmo := match s_timeout o with Some t => t | None => default_tmo lim end;
+     n_tmo := match s_timeout o with Some t => t * TICKS_PER_SECOND | None => default_tmo lim end;
      n_oack := opt_pair "blksize" (s_blksize o) ++ opt_pair "timeout" (s_timeout o)
                ++ opt_pair "tsize" (s_tsize o) |}.
